@@ -737,6 +737,9 @@ def r177(facts, res):
                 ok = True
             if c[0] == 'bin' and c[1] == 'Eq' and v == 1 and any(is_const(x) and x[1] in wmax for x in (c[2], c[3])):
                 ok = True
+            # `Some(x @ MAX)`: a switch on the value itself
+            if isinstance(v, int) and v in wmax and c[0] == 'field' and isinstance(c[1], tuple) and c[1][0] == 'downcast':
+                ok = True
         if not ok:
             bad = 'a rule\'s maximum is declared final on a path (blocks %s) on which a production of the rule is still incomplete and the maximum is not infinite: the incomplete production\'s cost is only a lower bound' % p.blocks[-8:]
             break
